@@ -1,5 +1,8 @@
--- PINNED by bin/pin_tables: copy of Gen/Dispatch.lean as generated from /repo at 0fe64d0 — regenerate, do not edit
+-- PINNED by bin/pin_tables: copy of Gen/Dispatch.lean as generated from /repo at 8a49c20 — regenerate, do not edit
 namespace Ggql.Pinned
 def dispatchOrder : List String := ["resolver", "any", "reflect"]
 def opFallbackAnyName : Bool := false
+def nullVarUsesDefault : Bool := false
+def listNotCoerced : Bool := false
+def symbolUnchecked : Bool := false
 end Ggql.Pinned
